@@ -375,6 +375,10 @@ def run(chk: common.Check):
     cases.append(("1HPX chain A blank, no selection", blank, []))
     cases.append(("1HPX chain A blank, -c ' '", blank, ["-c", " "]))
     cases.append(("1HPX chain A blank, -c B", blank, ["-c", "B"]))
+    # --titrate_only naming EVERY residue: the census and the summary are those of the run without the option (bridged cysteines included)
+    sub = structures.read("3SGB-subset.pdb")
+    every = ",".join(sorted({f"{l[21]}:{l[22:26].strip()}{l[26].strip()}" for l in structures.atom_lines(sub)}))
+    cases.append(("3SGB-subset -i <every residue>", sub, ["-i", every]))
     cases.append(("3SGB-subset two models", structures.as_models([structures.read("3SGB-subset.pdb")] * 2), []))
     # two copies of one ligand in ONE chain (same residue name and atom names, different residue numbers)
     t4 = structures.read("4DFR.pdb")
